@@ -826,6 +826,444 @@ def base_view_lines(R: Run, ops: Ops, g, cls: str):
         R.corr(f"c02 res {gs} {frac_s(n or 1)} {frac_s(m or 1)}", fr, sig=f"res|{cls}")
 
 
+
+# ------------------------------------------------------------------ accessor table, evaluated on VIEWS
+def _acc_slack(cx, gcp):
+    if gcp is None:
+        return F(1, 10**12) if cx.exact else F(1, 10**9)
+    return F(1, 10**7) if gcp["B"] is not None else F(1, 10**9)
+
+
+def expected_p2w(g, gcp):
+    """pixel -> world of a view from its (shape, affine) triple and, for GCP boxes, the composed mapping:
+    exactly B o A when the control points are affinely related by B, else fit o A"""
+    A = fa(g._affine)
+    if gcp is None:
+        return lambda p: fa_apply(A, p)
+    if gcp["B"] is not None:
+        BA = fa_mul(gcp["B"], A)
+        return lambda p: fa_apply(BA, p)
+    p2w = gcp["mapping"].p2w
+
+    def f(p):
+        q = fa_apply(A, p)
+        w = p2w(float(q[0]), float(q[1]))
+        return (F(float(w[0])), F(float(w[1])))
+    return f
+
+
+def _near(a, b, rel, scale):
+    a, b = F(float(a)), F(float(b))
+    return a == b or abs(a - b) <= rel * max(abs(F(scale)), abs(b))
+
+
+def _pt_near(a, b, rel, scale):
+    return _near(a[0], b[0], rel, scale) and _near(a[1], b[1], rel, scale)
+
+
+def _wscale(g, gcp):
+    ny, nx = map(int, g.shape)
+    e = expected_p2w(g, gcp)
+    ws = [e((F(x), F(y))) for x, y in [(0, 0), (nx, 0), (0, ny), (nx, ny)]]
+    return max([abs(v) for w in ws for v in w] + [F(1, 10**300)])
+
+
+def acc_shape(cx, g, gcp, case):
+    ny, nx = map(int, g.shape)
+    ok = g.width == nx and g.height == ny and tuple(g.shape) == (ny, nx) and g.shape.x == nx and g.shape.y == ny
+    ok = ok and g.is_empty() == (ny == 0 or nx == 0) and bool(g) == (not g.is_empty())
+    if ny != 0:
+        ok = ok and abs(g.aspect - nx / ny) <= 1e-12 * abs(nx / ny)
+    return ok, f"width/height/shape/aspect/is_empty inconsistent for shape {(ny, nx)}"
+
+
+def acc_crs(cx, g, gcp, case):
+    want = ("y", "x") if g.crs is None else g.crs.dimensions
+    return g.dims == want and g.dimensions == want and crs_tag(g.crs) != 99, f"dims {g.dims}"
+
+
+def acc_affine(cx, g, gcp, case):
+    if gcp is not None:
+        return True, ""
+    return g.affine == g._affine and g.transform == g._affine, "affine/transform is not the triple's affine"
+
+
+def acc_linear(cx, g, gcp, case):
+    A = fa(g._affine)
+    st = abs(A[1]) < F(1e-10) and abs(A[3]) < F(1e-10)
+    if gcp is not None:
+        return g.linear is False and g.axis_aligned is False, "GCP box claims to be linear / axis aligned"
+    return g.linear is True and bool(g.axis_aligned) == st, f"axis_aligned={g.axis_aligned} for affine {tuple(g._affine)[:6]}"
+
+
+def acc_alignment(cx, g, gcp, case):
+    A = fa(g._affine)
+    if A[0] == 0 or A[4] == 0:
+        return True, ""
+    al = g.alignment
+    ok = True
+    for got, t, r in ((al.x, A[2], abs(A[0])), (al.y, A[5], abs(A[4]))):
+        want = t - (t // r) * r
+        d = abs(F(float(got)) - want)
+        d = min(d, r - d)  # wraps at the pixel size
+        ok = ok and d <= F(1, 10**9) * max(r, abs(t))
+    return ok, f"alignment {al} for affine {tuple(g._affine)[:6]}"
+
+
+def acc_boundary(cx, g, gcp, case):
+    from odc.geo.geobox import gbox_boundary
+    ny, nx = map(int, g.shape)
+    pts = g.boundary(4)
+    ok = all((x in (0, nx) and 0 <= y <= ny) or (y in (0, ny) and 0 <= x <= nx) for x, y in pts.tolist())
+    have = {tuple(p) for p in pts.tolist()}
+    ok = ok and all((float(x), float(y)) in have for x, y in [(0, 0), (nx, 0), (0, ny), (nx, ny)])
+    ok = ok and np.array_equal(gbox_boundary(g, 4), pts)
+    return ok, f"boundary(4) = {pts.tolist()} for shape {(ny, nx)}"
+
+
+def acc_p2w(cx, g, gcp, case):
+    rel, sc, e = _acc_slack(cx, gcp), _wscale(g, gcp), expected_p2w(g, gcp)
+    for p in sample_pix(cx.R.rng, tuple(map(int, g.shape))):
+        pf = (F(float(p[0])), F(float(p[1])))
+        w = g.pix2wld(float(p[0]), float(p[1]))
+        if not _pt_near(w, e(pf), rel, sc):
+            return False, f"pix2wld{tuple(map(float, p))} = {tuple(map(float, w))}, composed mapping gives {tuple(map(float, e(pf)))}"
+    return True, ""
+
+
+def acc_w2p(cx, g, gcp, case):
+    A = fa(g._affine)
+    det = A[0] * A[4] - A[1] * A[3]
+    if det == 0 or min(g.shape) <= 0:
+        return True, ""
+    ny, nx = map(int, g.shape)
+    e = expected_p2w(g, gcp)
+    for p in sample_pix(cx.R.rng, (ny, nx))[:5]:
+        pf = (F(float(p[0])), F(float(p[1])))
+        w = e(pf)
+        q = g.wld2pix(float(w[0]), float(w[1]))
+        if gcp is None:
+            sc = world_scale(A, (ny, nx))
+            smin = abs(det) / max(abs(A[0]) + abs(A[1]) + abs(A[3]) + abs(A[4]), F(1, 10**300))
+            tol = F(1, 10**9) * (max(nx, ny, 1) + F(sc) / max(smin, F(1, 10**300)))
+        else:
+            tol = F(1, 10**3) * max(nx, ny, 1) if gcp["B"] is None else F(1, 10**4) * max(nx, ny, 1)
+        if abs(F(float(q[0])) - pf[0]) > tol or abs(F(float(q[1])) - pf[1]) > tol:
+            return False, f"wld2pix(world of pixel {tuple(map(float, p))}) = {tuple(map(float, q))}"
+    return True, ""
+
+
+def acc_extent(cx, g, gcp, case):
+    if min(g.shape) <= 0:
+        return True, ""
+    A = fa(g._affine)
+    if A[0] * A[4] - A[1] * A[3] == 0:
+        return True, ""
+    ny, nx = map(int, g.shape)
+    rel, sc, e = _acc_slack(cx, gcp), _wscale(g, gcp), expected_p2w(g, gcp)
+    got = [tuple(p) for p in g.extent.exterior.points]
+    if gcp is None:
+        pix = [(0, 0), (0, ny), (nx, ny), (nx, 0), (0, 0)]
+    else:
+        pix = [tuple(p) for p in g.boundary(16).tolist()]
+        if pix[0] != pix[-1]:
+            pix.append(pix[0])
+    want = [e((F(float(x)), F(float(y)))) for x, y in pix]
+    ok = len(got) == len(want) and all(_pt_near(a, b, rel, sc) for a, b in zip(got, want))
+    return ok, f"extent vertices {got[:5]} are not the images {[tuple(map(float, w)) for w in want[:5]]} of the pixel-rectangle boundary"
+
+
+def acc_bbox(cx, g, gcp, case):
+    if gcp is None and min(g.shape) < 0:
+        return True, ""
+    if gcp is not None and min(g.shape) <= 0:
+        return True, ""
+    ny, nx = map(int, g.shape)
+    rel, sc, e = _acc_slack(cx, gcp), _wscale(g, gcp), expected_p2w(g, gcp)
+    if gcp is None:
+        pix = [(0, 0), (0, ny), (nx, ny), (nx, 0)]
+    else:
+        pix = [tuple(p) for p in g.boundary(16).tolist()]
+    ws = [e((F(float(x)), F(float(y)))) for x, y in pix]
+    hull = (min(w[0] for w in ws), min(w[1] for w in ws), max(w[0] for w in ws), max(w[1] for w in ws))
+    bb = g.boundingbox
+    ok = all(_near(a, b, rel, sc) for a, b in zip(bb.bbox, hull)) and bb.crs == g.crs
+    return ok, f"boundingbox {tuple(bb.bbox)} is not the hull {tuple(map(float, hull))} of the footprint"
+
+
+def acc_coords(cx, g, gcp, case):
+    if gcp is not None:
+        return True, ""
+    A = fa(g._affine)
+    st = abs(A[1]) < F(1e-10) and abs(A[3]) < F(1e-10)
+    ok_alias = type(g).coords is type(g).coordinates
+    try:
+        co = g.coordinates
+    except ValueError:
+        return (not st) and ok_alias, "coordinates raised ValueError on an axis-aligned view"
+    if not st:
+        return False, "coordinates did not raise for a rotated / sheared view"
+    ny, nx = map(int, g.shape)
+    ylab, xlab = [co[d].values for d in g.dimensions]
+    rel, sc, e = _acc_slack(cx, None), _wscale(g, None), expected_p2w(g, None)
+    ok = ok_alias and len(xlab) == max(nx, 0) and len(ylab) == max(ny, 0)
+    pick = lambda n: range(n) if n <= 40 else list(range(20)) + list(range(n - 20, n))  # noqa: E731
+    for i in pick(len(xlab)):
+        ok = ok and _near(xlab[i], e((F(i) + F(1, 2), F(0)))[0] - A[1] * 0, rel, sc)
+    for j in pick(len(ylab)):
+        ok = ok and _near(ylab[j], e((F(0), F(j) + F(1, 2)))[1], rel, sc)
+    ok = ok and F(float(co[g.dimensions[1]].resolution)) == A[0] and F(float(co[g.dimensions[0]].resolution)) == A[4]
+    return ok, f"coordinate labels x={list(xlab)[:3]} y={list(ylab)[:3]} are not the pixel centres of the view"
+
+
+def _res_ok(res, L, rel=F(1, 10**9)):
+    """resolution against the linear part L=(a,b,d,e) of pixel->world"""
+    a, b, d, e = L
+    det = a * e - b * d
+    if det == 0:
+        return True
+    if abs(b) < F(1e-10) and abs(d) < F(1e-10):
+        return _near(res.x, a, rel, abs(a)) and _near(res.y, e, rel, abs(e))
+    n2, be2 = a * a + d * d, b * b + e * e
+    return res.x > 0 and abs(F(float(res.x)) ** 2 - n2) <= 2 * rel * n2 and \
+        abs(F(float(res.x)) * F(float(res.y)) - det) <= rel * abs(det) + F(1, 10**12) * n2 * be2 / abs(det)
+
+
+def acc_resolution(cx, g, gcp, case):
+    A = fa(g._affine)
+    if A[0] * A[4] - A[1] * A[3] == 0:
+        return True, ""
+    res = g.resolution
+    if gcp is None:
+        L = (A[0], A[1], A[3], A[4])
+        rel = F(1, 10**9)
+    else:
+        Bm = gcp["B"] if gcp["B"] is not None else fa(gcp["mapping"].approx)
+        BA = fa_mul(Bm, A)
+        L = (BA[0], BA[1], BA[3], BA[4])
+        rel = F(1, 10**6)
+        # is_affine_st is applied to the *fitted* linear part: tiny fit noise in b, d must not decide the branch
+        if max(abs(L[1]), abs(L[2])) < F(1, 10**6) * max(abs(L[0]), abs(L[3])):
+            L = (L[0], F(0), F(0), L[3])
+        elif min(abs(L[1]), abs(L[2])) < F(1e-9):
+            return True, ""
+    return _res_ok(res, L, rel), f"resolution {res} is not the pixel size of the view's pixel->world map (linear part {tuple(map(float, L))})"
+
+
+def acc_project(cx, g, gcp, case):
+    from odc.geo import geom as G
+    ny, nx = map(int, g.shape)
+    if min(ny, nx) <= 0:
+        return True, ""
+    A = fa(g._affine)
+    if A[0] * A[4] - A[1] * A[3] == 0:
+        return True, ""
+    rel, sc, e = _acc_slack(cx, gcp), _wscale(g, gcp), expected_p2w(g, gcp)
+    pix = [(0.0, 0.0), (float(nx), 0.0), (float(nx), float(ny)), (0.0, 0.0)]
+    w = g.project(G.polygon(pix, None))
+    got = [tuple(p) for p in w.exterior.points]
+    ok = w.crs == g.crs and all(_pt_near(a, e((F(x), F(y))), rel, sc) for a, (x, y) in zip(got, pix))
+    return ok, f"project(pixel triangle) = {got}"
+
+
+def acc_footprint(cx, g, gcp, case):
+    if g.crs is None or min(g.shape) <= 0:
+        return True, ""
+    A = fa(g._affine)
+    if A[0] * A[4] - A[1] * A[3] == 0:
+        return True, ""
+    fp = g.footprint(g.crs)
+    a, b = fp.boundingbox.bbox, g.extent.boundingbox.bbox
+    sc = _wscale(g, gcp)
+    ok = fp.crs == g.crs and all(_near(x, y, F(1, 10**9), sc) for x, y in zip(a, b))
+    ok = ok and abs(fp.area - g.extent.area) <= 1e-9 * max(abs(g.extent.area), 1e-300)
+    return ok, f"footprint(own crs) bbox {tuple(a)} vs extent bbox {tuple(b)}"
+
+
+def acc_geographic_extent(cx, g, gcp, case):
+    if min(g.shape) <= 0 or not (g.crs is None or g.crs.geographic):
+        return True, ""
+    A = fa(g._affine)
+    if A[0] * A[4] - A[1] * A[3] == 0:
+        return True, ""
+    ge, ex = g.geographic_extent, g.extent
+    return ge.crs == ex.crs and ge.exterior.points == ex.exterior.points, "geographic_extent differs from extent"
+
+
+def acc_map_bounds(cx, g, gcp, case):
+    if min(g.shape) <= 0 or not (g.crs is None or crs_tag(g.crs) == 1):
+        return True, ""
+    A = fa(g._affine)
+    if A[0] * A[4] - A[1] * A[3] == 0:
+        return True, ""
+    (ya, xa), (yb, xb) = g.map_bounds()
+    sc = _wscale(g, gcp)
+    if gcp is None:
+        ny, nx = map(int, g.shape)
+        e = expected_p2w(g, None)
+        p0, p2 = e((F(0), F(0))), e((F(nx), F(ny)))
+        ok = _pt_near((xa, ya), p0, F(1, 10**9), sc) and _pt_near((xb, yb), p2, F(1, 10**9), sc)
+    else:
+        x0, y0, x1, y1 = g.extent.boundingbox.bbox
+        ok = all(_near(u, v, F(1, 10**9), sc) for u, v in zip((xa, ya, xb, yb), (x0, y0, x1, y1)))
+    return ok, f"map_bounds {((ya, xa), (yb, xb))}"
+
+
+def acc_qr2sample(cx, g, gcp, case):
+    ny, nx = map(int, g.shape)
+    if min(ny, nx) <= 0:
+        return True, ""
+    q = g.qr2sample(7)
+    pts = [tuple(p.coords[0]) for p in q.geoms]
+    return len(pts) == 7 and all(0 <= x <= nx and 0 <= y <= ny for x, y in pts) and q.crs is None, f"qr2sample {pts}"
+
+
+def acc_approx(cx, g, gcp, case):
+    """GCPGeoBox.approx of a VIEW: the linear GeoBox `mapping.approx o affine`, same shape and crs"""
+    if gcp is None:
+        return True, ""
+    ap = g.approx
+    A = fa(g._affine)
+    want = fa_mul(fa(gcp["mapping"].approx), A)
+    got = fa(ap.affine)
+    ny, nx = map(int, g.shape)
+    ok = tuple(map(int, ap.shape)) == (ny, nx) and ap.crs == g.crs
+    sc = world_scale(want, (ny, nx))
+    bad = None
+    for p in sample_pix(cx.R.rng, (ny, nx)):
+        a, b = fa_apply(got, p), fa_apply(want, p)
+        if not _pt_near(a, b, F(1, 10**9), sc):
+            ok, bad = False, (p, a, b)
+            break
+    if ok and gcp["B"] is not None:
+        e = expected_p2w(g, gcp)
+        for p in sample_pix(cx.R.rng, (ny, nx)):
+            a, b = fa_apply(got, p), e(p)
+            if not _pt_near(a, b, F(1, 10**7), sc):
+                ok, bad = False, (p, a, b)
+                break
+    msg = "" if ok else (f"approx of the view has shape {tuple(ap.shape)}, crs {ap.crs}" if bad is None else
+                         f"approx puts pixel {tuple(map(float, bad[0]))} of the view at {tuple(map(float, bad[1]))}, "
+                         f"the view's own pixel->world map puts it at {tuple(map(float, bad[2]))}")
+    return ok, msg
+
+
+def acc_gcps(cx, g, gcp, case):
+    if gcp is None:
+        return True, ""
+    A = fa(g._affine)
+    if A[0] * A[4] - A[1] * A[3] == 0:
+        return True, ""
+    pts = g.gcps()
+    pix, wld = gcp["mapping"]._pix, gcp["mapping"]._wld
+    ok = len(pts) == len(pix)
+    for gp, (px, py), (wx, wy) in zip(pts, pix, wld):
+        back = fa_apply(A, (F(float(gp.col)), F(float(gp.row))))
+        ok = ok and _pt_near(back, (F(float(px)), F(float(py))), F(1, 10**9), max(abs(px), abs(py), 1.0))
+        ok = ok and gp.x == wx and gp.y == wy
+    return ok, "gcps(): control points are not pulled back through the view's affine"
+
+
+def acc_aliases(name):
+    def f(cx, g, gcp, case):
+        if gcp is not None:
+            return True, ""
+        from odc.geo import geobox as GBm
+        fn = getattr(GBm, name)
+        if name == "pad":
+            return fn(g, 2, 3) == g.pad(2, 3), "alias differs"
+        if name == "pad_wh":
+            return fn(g, 8, 4) == g.pad_wh(8, 4), "alias differs"
+        if name == "translate_pix":
+            return fn(g, 1.5, -2.0) == g.translate_pix(1.5, -2.0), "alias differs"
+        if name == "rotate":
+            return fn(g, 90) == g.rotate(90), "alias differs"
+        if name in ("flipx", "flipy"):
+            return fn(g) == getattr(g, name)(), "alias differs"
+        if name == "zoom_out":
+            return fn(g, 2.0) == g.zoom_out(2.0), "alias differs"
+        if name == "zoom_to":
+            return fn(g, (3, 5)) == g.zoom_to((3, 5)), "alias differs"
+        if name == "affine_transform_pix":
+            T = fa_tr(1, 2)
+            from affine import Affine
+            return fn(g, Affine(*map(float, T))) == g * Affine(*map(float, T)), "alias differs"
+        return True, ""
+    return f
+
+
+OP = "view operation: contract checked by the op oracles (also in chains and on GCP boxes)"
+ACC = {
+    "shape": acc_shape, "width": acc_shape, "height": acc_shape, "aspect": acc_shape, "is_empty": acc_shape,
+    "crs": acc_crs, "dimensions": acc_crs, "dims": acc_crs, "affine": acc_affine, "transform": acc_affine,
+    "linear": acc_linear, "axis_aligned": acc_linear, "alignment": acc_alignment,
+    "pix2wld": acc_p2w, "wld2pix": acc_w2p, "extent": acc_extent, "boundingbox": acc_bbox, "boundary": acc_boundary,
+    "gbox_boundary": acc_boundary, "coordinates": acc_coords, "coords": acc_coords, "resolution": acc_resolution,
+    "project": acc_project, "footprint": acc_footprint, "geographic_extent": acc_geographic_extent,
+    "map_bounds": acc_map_bounds, "qr2sample": acc_qr2sample, "approx": acc_approx, "gcps": acc_gcps,
+    "compute_crop": OP, "crop": OP, "expand": OP, "pad": OP, "pad_wh": OP, "translate_pix": OP, "left": OP, "right": OP,
+    "top": OP, "bottom": OP, "flipx": OP, "flipy": OP, "rotate": OP, "center_pixel": OP, "compute_zoom_out": OP,
+    "zoom_out": OP, "compute_zoom_to": OP, "zoom_to": OP, "buffered": OP, "scaled_down_geobox": OP,
+    "affine_transform_pix": OP,
+    "enclosing": "C08", "snap_to": "C16", "overlap_roi": "C16", "to_crs": "C11", "from_bbox": "C08",
+    "from_geopolygon": "C08", "from_rio": "constructor", "pixel_translation": "C16",
+    "bounding_box_in_pixel_domain": "C16", "geobox_union_conservative": "C16",
+    "geobox_intersection_conservative": "C16", "svg": "display", "grid_lines": "display", "outline": "display",
+    "explore": "display", "compat": "datacube interop",
+}
+MODULE_ALIASES = ["flipx", "flipy", "pad", "pad_wh", "rotate", "translate_pix", "zoom_out", "zoom_to", "affine_transform_pix"]
+_DISCOVERED = {}
+
+
+def discover_accessors(GB, GCP):
+    if _DISCOVERED:
+        return _DISCOVERED
+    mod_fns = [n for n in dir(GB) if not n.startswith("_") and callable(getattr(GB, n))
+               and getattr(getattr(GB, n), "__module__", "") == GB.__name__ and not isinstance(getattr(GB, n), type)]
+    _DISCOVERED["GeoBox"] = [n for n in dir(GB.GeoBox) if not n.startswith("_")]
+    _DISCOVERED["GCPGeoBox"] = [n for n in dir(GCP.GCPGeoBox) if not n.startswith("_")]
+    _DISCOVERED["module"] = mod_fns
+    return _DISCOVERED
+
+
+def accessor_table_lines(R: Run, GB, GCP):
+    """every live public name must be known to the model's table and have a checker / a stated reason here"""
+    d = discover_accessors(GB, GCP)
+    for name in sorted(set(d["GeoBox"]) | set(d["GCPGeoBox"]) | set(d["module"])):
+        R.corr(f"c02 acc {name}", lambda: "T" if name in ACC else "F", sig="accessor-table|" + ("known" if name in ACC else "UNKNOWN"))
+
+
+def check_accessors(cx: Ctx, g, gcp=None, only=None):
+    """evaluate every public accessor of the (view) geobox against the view's own pixel->world contract"""
+    R = cx.R
+    mods = _import()
+    d = discover_accessors(mods[0], mods[1])
+    names = d["GCPGeoBox"] if gcp is not None else d["GeoBox"] + (["gbox_boundary"] if True else [])
+    pre = "gcp-acc-" if gcp is not None else "acc-"
+    case = {"op": pre + "views", "gbox": enc_gb(g), "args": "" if gcp is None else gcp.get("desc", "")}
+    done = set()
+    for name in names:
+        chk = ACC.get(name)
+        if chk is None or isinstance(chk, str) or chk in done:
+            continue
+        if only is not None and name not in only:
+            continue
+        done.add(chk)
+        try:
+            ok, msg = chk(cx, g, gcp, case)
+        except Exception as e:  # pylint: disable=broad-except
+            ok, msg = False, f"{name} raised {type(e).__name__}: {e}"
+        R.oracle(ok, pre + chk.__name__[4:], case, "" if ok else f"{type(g).__name__}{tuple(g.shape)}.{name}: {msg}",
+                 sig=pre + chk.__name__[4:])
+    if gcp is None and only is None and min(g.shape) > 0 and cx.R.rng.random() < 0.2:
+        for name in MODULE_ALIASES:
+            try:
+                ok, msg = acc_aliases(name)(cx, g, gcp, case)
+            except Exception as e:  # pylint: disable=broad-except
+                ok, msg = False, f"{type(e).__name__}: {e}"
+            R.oracle(ok, "acc-alias-" + name, case, f"odc.geo.geobox.{name}(gbox, ...) differs from the method", trivial=True)
+
+
 # ------------------------------------------------------------------ main
 def run(R: Run):
     mods = _import()
